@@ -171,6 +171,14 @@ def body(chk):
     chk.tlc_stats(r)
     for v in r.violated:
         chk.violation(f"model:{v}", f"TLC: {v} violated in Cache", {"tlc": r.out[-3000:]})
+    # the step-grain open run by ONE process is equivalent to an atomic one governed by CacheRule (the abstraction Alos2!Open uses); with two
+    # processes it is not -- TLC must find that counterexample, else the check is vacuous
+    ra = tlc.run_ok("CacheAtomic", "MC_CacheAtomic", workers=16, timeout=3000)
+    chk.tlc_stats(ra)
+    for v in ra.violated:
+        chk.violation(f"model:atomic:{v}", f"TLC: {v} violated: the multi-step open of Cache.tla is not the atomic Open of Alos2.tla", {"tlc": ra.out[-3000:]})
+    if "AtomicSources" not in tlc.run("CacheAtomic", "MC_CacheAtomic_two", workers=8).violated:
+        raise checklib.Machinery("non-vacuity: two interleaved processes must break the atomic-open equivalence")
     tasks = []
     i = 0
     for level in ("1.5", "1.1"):
